@@ -251,8 +251,8 @@ Definition seof (fe : bool) (s : sk) : sk * bool :=
   else if fe then (set_h (sclose s) HNone (k_need s), false)
   else (s, true).
 
-(* the code as it is now: unrepaired *)
-Definition socks_eof_fx_head : bool := false.
+(* the code as it is now: repaired by 18cb9f6 (an EOF while the request is still being parsed closes the forwarder) *)
+Definition socks_eof_fx_head : bool := true.
 
 
 (* ---------------------------------------------------------------------------------------- *)
